@@ -188,6 +188,24 @@ let handle (fields : string list) : string * string =
         let a = String.trim (String.sub impl 0 i) and b = String.trim (String.sub impl (i + 1) (String.length impl - i - 1)) in
         if strip_n a = strip_n b then "ok" else "fail:" ^ cls in
     (m, verdict)
+  | "relay" :: bodies :: writes :: impl :: [] ->
+    (* client DATA bodies and host writes (net.Pipe: every write is handed over in
+       reads of at most FORWARD_BUF); observation = "<bytes at host> | <packets at client>" *)
+    let lst s = if s = "-" then [] else List.map bytes_of_hex (split_on ',' s) in
+    let bodies = lst bodies and writes = lst writes in
+    let ops = List.map (fun b -> ClientData b) bodies @ List.map (fun c -> HostRead c) (Model.forward_chunks writes) in
+    let st = Model.relay ops in
+    let pk l = match l with [] -> "-" | _ -> String.concat "," (List.map hex_of_bytes l) in
+    let m = hex_of_bytes st.to_host ^ " | " ^ pk st.to_client in
+    let verdict =
+      match split_on '|' impl with
+      | [h; c] ->
+        let at_host = bytes_of_hex (String.trim h) in
+        let c = String.trim c in
+        let at_client = if c = "-" then [] else List.map bytes_of_hex (split_on ',' c) in
+        if Model.c06_oracle bodies (List.concat writes) at_host at_client then "ok" else "fail:relay-not-exact"
+      | _ -> "fail:bad-observation" in
+    (m, verdict)
   | k :: _ -> failwith ("unknown kind " ^ k)
   | [] -> failwith "empty line"
 
